@@ -603,6 +603,44 @@ def _apikey_rules(cls: Class, rep: Report) -> None:
     cfg = CFG(m.node)
     found: Dict[str, str] = {}
     AL = Locals(m.node)
+    # table-driven form: a constant (location -> request-argument key) table of the module, looked up by self.location (in the method or
+    # a helper of the class that raises ValueError when nothing matches); the method writes {self.name: self.key} into request_args[<that key>]
+    table = None
+    for st in cls.module.tree.body:
+        if isinstance(st, (ast.Assign, ast.AnnAssign)) and getattr(st, "value", None) is not None:
+            v = st.value
+            pairs = None
+            if isinstance(v, ast.Dict) and all(k is not None and const_str(k) is not None and const_str(x) is not None for k, x in zip(v.keys, v.values)):
+                pairs = {const_str(k): const_str(x) for k, x in zip(v.keys, v.values)}
+            elif isinstance(v, (ast.Tuple, ast.List)) and v.elts and all(isinstance(e, (ast.Tuple, ast.List)) and len(e.elts) == 2 and all(const_str(y) is not None for y in e.elts) for e in v.elts):
+                pairs = {const_str(e.elts[0]): const_str(e.elts[1]) for e in v.elts}
+            if pairs and set(want) & set(pairs):
+                tg = st.targets[0] if isinstance(st, ast.Assign) else st.target
+                table = (tg.id if isinstance(tg, ast.Name) else "?", pairs)
+    if table is not None and not any(isinstance(s_, ast.If) and "self.location" in norm(AL.inline(s_.test)) for s_ in m.node.body):  # type: ignore[attr-defined]
+        tname, pairs = table
+        scope = [m] + [h for hn, h in cls.methods.items() if any(isinstance(c.func, ast.Attribute) and c.func.attr == hn for c in calls_in(m.node))]
+        looks_up = any(isinstance(x, ast.Name) and x.id == tname for f_ in scope for x in ast.walk(f_.node)) and any(
+            "self.location" in norm(x) for f_ in scope for x in ast.walk(f_.node) if isinstance(x, (ast.Compare, ast.Subscript, ast.Call)))
+        raises = any(isinstance(x, ast.Raise) and x.exc is not None and "ValueError" in norm(x.exc) for f_ in scope for x in ast.walk(f_.node))
+        writes_named = any(isinstance(n, ast.Assign) and any(isinstance(tg, ast.Subscript) and norm(tg.slice) == "self.name" for tg in n.targets) and norm(n.value) == "self.key"
+                           for n in own_nodes(m.node)) or any(
+            isinstance(n, ast.Dict) and any(k is not None and norm(k) == "self.name" and norm(x) == "self.key" for k, x in zip(n.keys, n.values)) for n in own_nodes(m.node))
+        writes_container = any(isinstance(n, ast.Assign) and any(isinstance(tg, ast.Subscript) and isinstance(tg.value, ast.Name) and tg.value.id == p and not const_str(tg.slice)
+                                                                 for tg in n.targets) for n in own_nodes(m.node))
+        if looks_up and writes_container:
+            for loc_val, exp in want.items():
+                got = pairs.get(loc_val)
+                if got == exp and writes_named:
+                    rep.ok("R17.5", sub + f" location={loc_val!r}", f"table `{tname}` routes it to request_args[{got!r}], written as {{self.name: self.key}}", m.loc())
+                else:
+                    rep.violation("R17.5", sub + f" location={loc_val!r}", f"{m.fq}|location|{loc_val}|{[got]}|{writes_named}",
+                                  f"location {loc_val!r} writes into {[got]} (expected [{exp!r}]) / uses configured name+key: {writes_named}", m.loc())
+            if raises:
+                rep.ok("R17.5", sub + " unknown location", "an unknown location raises ValueError", m.loc())
+            else:
+                rep.violation("R17.5", sub + " unknown location", f"{m.fq}|unknown-location-silent", "an unknown location does not raise: the key is silently not sent", m.loc())
+            return
     # a `match self.location:` statement is the same switch: rewritten as the equivalent if/elif chain
     for mi, st in enumerate(list(m.node.body)):  # type: ignore[attr-defined]
         if isinstance(st, ast.Match) and norm(AL.inline(st.subject)) == "self.location":
